@@ -441,7 +441,7 @@ def _extendFromFan(indexlist, index):
     """Convert triangle fan indices to triangle indices
     """
     c = numpy.concatenate((
-        numpy.repeat(index[:1], len(index) - 2, 0),
+        numpy.repeat(index[:1], max(len(index) - 2, 0), 0),
         index[1:-1],
         index[2:]), 1)
     indexlist.append(c.reshape(-1))
